@@ -38,6 +38,9 @@ class SockRecv(Contract):
         n = int_term(args[0])
         f = st.obj(selfv).fields
         arr, rpos = f["arr"], f["rpos"]
+        # recv(0) returns b"" without the peer having closed: a caller that may pass 0 mistakes "nothing requested" for
+        # end of stream and stalls (C11/C12 completeness)
+        eng.oblige("ext.Socket.recv.pre.bufsize_positive", st, n >= 1, kind="pre", site=site, observe={"bufsize": n})
         outs = []
         for kind in ("data", "closed", "OSError", "TimeoutError"):
             s = st.fork()
